@@ -22,6 +22,16 @@ plus the minimum of the chaining rules needed to know who waits on whom: a per-D
 already fired, not waiting d_{k+1} or makes d_k wait; a continuation hands the result up.
 All values carry unique ids, so every delivery identifies the call that produced it.
 
+Pause / chainDeferred family: histories may also pause and unpause every Deferred and use
+d_{k+1}.chainDeferred(d_k).  "Waiting on another Deferred" is what the statement says - d_k ran its
+wait callback, was handed an unfired / paused / waiting d_{k+1} and has not been given the result
+yet - and never an implementation field: a fired Deferred that is merely paused, that was the target
+of chainDeferred, or that used to wait and has since been handed its result (even if it has not
+resumed because it is paused) waits on nothing, and cancel() on it must have no effect at all (key
+`cancel-of-fired-not-waiting-had-effect`).  A paused Deferred runs no callbacks; the Deferred that
+handed it a result goes on with its own list.  wait_k and chn_k exclude each other (firing d_k from
+d_{k+1}'s running chain while d_k returns d_{k+1} is C01's re-entrant corner).
+
 Re-entrant cancellers: a canceller may fire the next or the previous Deferred of the chain (an
 AlreadyCalledError there is caught inside the canceller and logged; a Deferred in state S swallows
 it), call cancel() on the next one, or fire its own Deferred and then raise.  The model runs those
@@ -51,8 +61,12 @@ RULE = ("all histories of length L (every shorter one is a prefix and is checked
         "next / previous Deferred of the chain, cancels the next one, or fires its own and then raises) at "
         "L=4 quick / L=5 (two of them L=6) thorough; four-level chain x 2 configurations at L=5 thorough.  "
         "Plus E1 depth-first exploration with state pruning to length 12 / 16 over all 13 "
-        "two-level, 40 three-level (8 with re-entrant cancellers) and 3 quick / 6 thorough four-level "
-        "configurations (cancel forwarded through three levels).  A history is distinct by (configuration, action "
+        "two-level, 40 three-level (8 with re-entrant cancellers) and 2 quick / 6 thorough four-level "
+        "configurations (cancel forwarded through three levels).  Pause/chainDeferred family: the alphabet "
+        "extended by pause_k / unpause_k (at most 2 outstanding) and chn_k = d_{k+1}.chainDeferred(d_k) "
+        "(excludes wait_k): two-level x 4 configurations at L=4 quick / L=5 thorough, three-level 'lite' "
+        "(no errbacks, one outstanding pause) x 2 configurations at L=4 / L=5, plus pruned exploration to "
+        "depth 8 / 11 (two-level) and 7 / 9 (three-level).  A history is distinct by (configuration, action "
         "list) and non-trivial when it contains a cancel or a firing attempt on an already fired Deferred.")
 ASSUMPTIONS = [
     "trusted base: the 3-state model plus FIFO chaining rules in this module (about 90 lines)",
@@ -65,7 +79,8 @@ FLOORS = {"steps_compared": 1000000, "already_called_errors": 100000, "swallowed
           "cancel_no_effect": 10000, "raising_canceller_calls": 1000, "explore_states": 5000,
           "histories_3level": 100000, "histories_2level": 100000, "cancel_forwarded_three_levels": 100,
           "reentrant_canceller_calls": 10000, "canceller_nested_already_called": 1000,
-          "histories_reentrant_cancellers": 50000}
+          "histories_reentrant_cancellers": 50000, "histories_pause_chaindeferred": 30000,
+          "chaindeferred_pairs_run": 10000, "cancel_no_effect_fired_paused": 5000}
 READY = True
 
 KINDS = ("none", "cb", "eb", "nothing", "raises")
@@ -544,7 +559,7 @@ def plan(ctx):
     if ctx.quick or scale < 1:  # smoke runs of the thorough tier use the quick plan
         return [(CONFIGS2, 5), (CONFIGS2_LONG, 6), (CONFIGS3[:3], 5), (CONFIGS3_RE, 4), (CONFIGS2_EXT, 4), (CONFIGS3_EXT, 4)], 12, True
     return [(CONFIGS2, 6), (CONFIGS2_LONG, 7), (CONFIGS3, 6), (CONFIGS3_RE, 5), (CONFIGS3_RE_LONG, 6), (CONFIGS4[:2], 5),
-            (CONFIGS2_EXT, 6), (CONFIGS3_EXT, 5)], 16, True
+            (CONFIGS2_EXT, 5), (CONFIGS3_EXT, 5)], 16, True
 
 
 def explore_configs(quick=False):
@@ -557,7 +572,7 @@ def explore_configs(quick=False):
     for c in [("none", "none", "raises"), ("nothing", "cb", "raises"), ("eb", "none", "raises"), ("raises", "cb", "eb")]:
         if c not in out:
             out.append(c)
-    out += CONFIGS3_RE + (CONFIGS4[:1] + CONFIGS4[3:5] if quick else CONFIGS4)
+    out += CONFIGS3_RE + (CONFIGS4[:1] + CONFIGS4[3:4] if quick else CONFIGS4)
     out += (CONFIGS2_EXT[:2] + CONFIGS3_EXT[:1]) if quick else (CONFIGS2_EXT + CONFIGS3_EXT + [(EXT, "raises", "nothing"), (EXT, "eb", "cb")])
     return out
 
